@@ -6,7 +6,8 @@ Harnesses: harness/pkg/supervisor/c20_*_test.go (business controllers through Su
 harness/pkg/object/rawconfigtrafficcontroller/c20_*_test.go (the same plus traffic objects through
 RawConfigTrafficController -> TrafficController).
 
-Phases (VERIF_PHASES): mc, mbt, tv (package supervisor), tmbt, ttv (package rawconfigtrafficcontroller).
+Phases (VERIF_PHASES): mc, mbt, tv, tvl (package supervisor), tmbt, ttv, ttvl (package rawconfigtrafficcontroller);
+tvl / ttvl = TV with long bursts of snapshots and slow watchers.
 """
 import random
 import re
@@ -35,10 +36,12 @@ def contract_cfg(names, biz, gate, vers, maxsnaps):
     return "SPECIFICATION CSpec\n" + consts(names, biz, gate, [], vers, maxsnaps) + CONTRACT_INV
 
 
-def impl_cfg(names, biz, gate, pipe, vers, maxsnaps, watchers, panics, pinned=False, recover=True):
+def impl_cfg(names, biz, gate, pipe, vers, maxsnaps, watchers, panics, pinned=False, recover=True, cap=10, drop=False):
     return ("SPECIFICATION ISpec\n" + consts(names, biz, gate, pipe, vers, maxsnaps, model=True) +
-            "  Watchers = %s\n  MaxPanics = %d\n  KindChangeIsUpdate = %s\n  Recover = %s\nVIEW view\nSYMMETRY NameSym\n"
-            % (sset(watchers), panics, "TRUE" if pinned else "FALSE", "TRUE" if recover else "FALSE") + IMPL_INV)
+            "  Watchers = %s\n  MaxPanics = %d\n  KindChangeIsUpdate = %s\n  Recover = %s\n  ChanCap = %d\n  DropWhenFull = %s\n"
+            "VIEW view\nSYMMETRY NameSym\n"
+            % (sset(watchers), panics, "TRUE" if pinned else "FALSE", "TRUE" if recover else "FALSE", cap,
+               "TRUE" if drop else "FALSE") + IMPL_INV)
 
 
 def gen_cfg(names, nameseq, biz, gate, kindseq, vers, maxsnaps, panics, canonical=True):
@@ -47,8 +50,8 @@ def gen_cfg(names, nameseq, biz, gate, kindseq, vers, maxsnaps, panics, canonica
             % (panics, "TRUE" if canonical else "FALSE", nameseq, kindseq))
 
 
-def trace_cfg(names, biz, gate):
-    return ("SPECIFICATION TSpec\n" + consts(names, biz, gate, [], [1, 2, 3], 100000000) +
+def trace_cfg(names, biz, gate, vers=(1, 2, 3)):
+    return ("SPECIFICATION TSpec\n" + consts(names, biz, gate, [], vers, 100000000) +
             "CONSTRAINT HWM\nPOSTCONDITION Accepted\n" + CONTRACT_INV)
 
 
@@ -56,7 +59,8 @@ def run(ctx):
     ctx.cov["rule"] = ("behaviours = TLC-generated snapshot sequences (all canonical sequences up to the bound, with scripted "
                        "panics) replayed in lock-step on a real Supervisor (and RawConfigTrafficController/TrafficController) fed "
                        "through the mocked cluster syncer, callbacks and live set compared per step and name with the contract; "
-                       "traces = seeded random longer histories (bursts of snapshots, panicking callbacks) recorded from the real "
+                       "traces = seeded random longer histories (bursts of 1-3 snapshots, and bursts of 14-32 snapshots pushed while "
+                       "the handlers are held back by gated / slow callbacks; panicking callbacks) recorded from the real "
                        "code and validated by TLC against the contract; non-trivial = distinct behaviours/traces with at least one "
                        "inherit, close or kind change")
     ctx.assumptions += [
@@ -81,8 +85,10 @@ def run(ctx):
         return f
 
     strands = [strand(("mc", _mc, ())),
-               strand(("mbt", _mbt, (SUP,)), ("tv", _tv, (SUP,))),
-               strand(("tmbt", _mbt, (RCTC,)), ("ttv", _tv, (RCTC,)))]
+               strand(("mbt", _mbt, (SUP,)), ("tv", _tv, (SUP, False))),
+               strand(("tmbt", _mbt, (RCTC,)), ("ttv", _tv, (RCTC, False))),
+               strand(("tvl", _tv, (SUP, True))),
+               strand(("ttvl", _tv, (RCTC, True)))]
     with ThreadPoolExecutor(len(strands)) as ex:
         futs = [ex.submit(f) for f in strands]
         errs = []
@@ -114,6 +120,15 @@ def _mc(ctx):
                 ("sup watcher, 2 names, 3 snapshots", impl_cfg(["a", "b"], ["K1", "K2"], [], [], [1, 2], 3, ["sup"], 1)),
                 ("both watchers, 2 names, pipelines", impl_cfg(["a", "b"], ["K1"], ["G1"], ["P1"], [1, 2], 2, ["sup", "rctc"], 1)),
                 ("both watchers, 3 names", impl_cfg(["a", "b", "c"], ["K1"], ["G1"], [], [1], 2, ["sup", "rctc"], 2))]
+    # slow watchers: a channel of capacity 1 / 2 is full after one / two unhandled events, so that with 3 snapshots the
+    # registry has to wait for room (blocking send, the code's shape)
+    runs += [("sup watcher, 2 names, 3 snapshots, channel capacity 1",
+              impl_cfg(["a", "b"], ["K1", "K2"], [], [], [1, 2], 3, ["sup"], 0, cap=1)),
+             ("both watchers, 2 names, 3 snapshots, channel capacity 1",
+              impl_cfg(["a", "b"], ["K1"], ["G1"], [], [1], 3, ["sup", "rctc"], 0, cap=1))]
+    if not q:
+        runs += [("sup watcher, 2 names, 4 snapshots, channel capacity 2",
+                  impl_cfg(["a", "b"], ["K1"], [], [], [1, 2], 4, ["sup"], 0, cap=2))]
     for label, cfg in runs:
         r = ctx.tlc_mc("LifecycleImpl", cfg, label="impl (kind change = delete+create) refines contract: " + label, timeout=1500)
         ctx.log("impl layer refines the contract (%s): %d distinct states" % (label, r.distinct))
@@ -126,6 +141,13 @@ def _mc(ctx):
         ctx.log("model sanity: the kind-change-as-update shape of applyConfig violates %s" % r.violated)
     else:
         ctx.inconclusive("TLC does not reject the kind-change-as-update shape of applyConfig: refinement check is vacuous\n" + r.out[-2000:])
+    # a send that gives up when the watcher's channel is full loses the diff for good: TLC must find that, too
+    r = ctx.tlc_mc("LifecycleImpl", impl_cfg(["a", "b"], ["K1"], [], [], [1, 2], 3, ["sup"], 0, cap=1, drop=True),
+                   label="impl with a non-blocking send to a full watcher channel", expect_ok=False, count=False, timeout=600)
+    if r.violated:
+        ctx.log("model sanity: dropping the event of a full watcher channel violates %s" % r.violated)
+    else:
+        ctx.inconclusive("TLC does not reject the dropped watcher event: the slow-watcher part of the refinement check is vacuous\n" + r.out[-2000:])
     if not q:
         r = ctx.tlc_mc("LifecycleImpl", impl_cfg(["a", "b"], ["K1", "K2"], [], [], [1, 2], 2, ["sup"], 1, recover=False),
                        label="impl without recover()", expect_ok=False, count=False, timeout=600)
@@ -292,20 +314,58 @@ def _trace_sig(seg, pkg):
     return sig
 
 
-def _tv(ctx, pkg):
+LONG_Q, LONG_T = (14, 40), (120, 40)      # (histories, snapshots per history) of the long-burst group
+CHAN = 10                                   # buffer of ObjectEntityWatcher.eventChan
+
+
+def _long_burst_coverage(ctx, ev, short):
+    """vacuity guard of the long-burst group: bursts in which callbacks were really held back while more snapshots that
+    change something than a watcher's channel buffers were handed to the registry"""
+    full = sleepy = 0
+    burst = []
+    last = None
+    for e in ev:
+        if e.get("ev") == "reset":
+            burst, last = [], None
+        elif e.get("ev") == "snap":
+            burst.append(e["snap"] != last)
+            last = e["snap"]
+        elif e.get("ev") == "quiet":
+            burst = []
+        elif e.get("ev") == "gate":
+            if e["mode"] == "gated" and e["held"] >= 1 and sum(burst) >= CHAN + 2:
+                full += 1
+            if e["mode"] == "sleepy" and sum(burst) >= CHAN + 2:
+                sleepy += 1
+    ctx.cov["%s_long_bursts" % short] = {"gated_with_more_effective_snapshots_than_channel": full, "sleepy": sleepy,
+                                         "registry_waited_for_room": sum(1 for e in ev if e.get("ev") == "gate" and e["stagnated"])}
+    if full < 3:
+        ctx.inconclusive("C20: only %d long bursts with held-back callbacks in %s: the slow-watcher class is not exercised" % (full, short))
+    ctx.nontrivial({"p": short, "long-bursts": full})
+
+
+def _tv(ctx, pkg, long_bursts):
     short = pkg.split("/")[-1]
     sup = pkg == SUP
     biz, gate = (["K1", "K2"], []) if sup else (["K1", "K2"], ["G1", "P1"])
     # group A: the kind of a live name never changes; group B: arbitrary histories
-    groups = [("same-kind", 0, (10, 20) if ctx.quick else (100, 30)), ("kind-changes", 1, (10, 20) if ctx.quick else (60, 30))]
+    # group C: long bursts (14..32 snapshots back to back) while the handler goroutines are kept busy by gated / slow
+    # callbacks, so that many more events are outstanding than a watcher's event channel buffers
+    groups = [("same-kind", 0, 0, (10, 20) if ctx.quick else (100, 30)), ("kind-changes", 1, 0, (10, 20) if ctx.quick else (60, 30)),
+              ("long-bursts", 1, 1, (LONG_Q if ctx.quick else LONG_T))]
     last_group = False
-    for gname, kc, (n, steps) in groups:
+    if long_bursts:
+        rc, out = ctx.go_test(pkg, "^TestVerifC20Build$")
+        if rc != 0:
+            ctx.inconclusive("C20 harness does not run in %s:\n%s" % (pkg, out[-3000:]))
+    for gname, kc, lb, (n, steps) in [g for g in groups if bool(g[2]) == long_bursts]:
         if last_group:
             break
-        tp = ctx.path("c20_%s_trace_%d.ndjson" % (short, kc))
+        tp = ctx.path("c20_%s_trace_%d.ndjson" % (short, kc + 2 * lb))
         for attempt in (1, 2):
             rc, out = ctx.go_test(pkg, "^TestVerifC20Trace$", env={"VERIF_OUT": tp, "VERIF_N": n, "VERIF_STEPS": steps, "VERIF_NAMES": 3,
-                                                                  "VERIF_KINDCHANGE": kc, "VERIF_SALT": kc}, timeout=1500)
+                                                                  "VERIF_KINDCHANGE": kc, "VERIF_SALT": kc + 2 * lb,
+                                                                  "VERIF_LONGBURST": lb}, timeout=1500)
             ev = ctx.read_ndjson(tp)
             if any(e.get("ev") == "starved" for e in ev):
                 ctx.inconclusive("C20: the harness process of %s did not get CPU time for 30 s (overloaded machine); no observation" % pkg)
@@ -325,12 +385,16 @@ def _tv(ctx, pkg):
         ctx.evals(n)
         if sum(1 for e in ev if e.get("ev") == "cb") == 0 and not last_group:
             ctx.inconclusive("C20: trace without callbacks in %s" % pkg)
+        if lb and not last_group:
+            _long_burst_coverage(ctx, ev, short)
         # validate; a rejected history is reported, cut out, and the rest validated again
         rounds = 0
         while ev and rounds < (8 if ctx.quick else 30):
             rounds += 1
-            p = ctx.write_ndjson("c20_%s_tv_%d_%d.ndjson" % (short, kc, rounds), ev)
-            tr = ctx.tlc_trace("Lifecycle_Trace", trace_cfg(["a", "b", "c"], biz, gate), p, timeout=1200)
+            p = ctx.write_ndjson("c20_%s_tv_%d_%d.ndjson" % (short, kc + 2 * lb, rounds), ev)
+            # (long bursts: every new spec of a name has a fresh version, at most one per snapshot)
+            tr = ctx.tlc_trace("Lifecycle_Trace", trace_cfg(["a", "b", "c"], biz, gate, range(1, steps + 2) if lb else (1, 2, 3)), p,
+                               timeout=1200)
             segs = _segments(ev)
             if tr.accepted:
                 ctx.traces(len(segs))
